@@ -266,7 +266,6 @@ pub open spec fn cat_data0(q: Seq<DataWithoutzooms>, n: int) -> Seq<u8>
 // write_chroms_without_zooms
 // =====================================================================================
 #[verifier::loop_isolation(false)]
-#[verifier::allow_complex_invariants]
 //@extract fn bigtools/src/bbi/bbiwrite.rs write_chroms_without_zooms
 //@rule R1
 //@sub /<W: Write \+ Seek \+ Send \+ 'static>/ => "" min=1
@@ -306,9 +305,6 @@ pub open spec fn cat_data0(q: Seq<DataWithoutzooms>, n: int) -> Seq<u8>
             section_iter@.len() == i,
             forall|k: int| 0 <= k < i ==> section_iter@[k] == iter_of(q[k].0),
             max_uncompressed_buf_size as int == maxall0(q, i),
-        ensures
-            [[L: nz/loop/ends_only_when_the_mailbox_is_empty]]
-            i == n,
         decreases
             [[L: nz/loop/termination]]
             n - i,
@@ -338,7 +334,6 @@ pub open spec fn cat_data0(q: Seq<DataWithoutzooms>, n: int) -> Seq<u8>
 // `zooms.iter_mut()` / `zooms.into_iter()` become an index loop over `&mut zooms[j]` and a front-to-back draining
 // loop, each with the code's own pattern spliced in verbatim.
 #[verifier::loop_isolation(false)]
-#[verifier::allow_complex_invariants]
 //@extract fn bigtools/src/bbi/bbiwrite.rs write_chroms_with_zooms
 //@rule R1
 //@sub /<W: Write \+ Seek \+ Send \+ 'static>/ => "" min=1
@@ -400,9 +395,6 @@ pub open spec fn cat_data0(q: Seq<DataWithoutzooms>, n: int) -> Seq<u8>
             [[L: loop/every_level_after_the_chromosomes_so_far]]
             zooms_map@.dom() == dom,
             forall|x: u32| dom.contains(x) ==> level_after(#[trigger] zooms_map@[x], zm0[x], q, i, x),
-        ensures
-            [[L: loop/ends_only_when_the_mailbox_is_empty]]
-            i == n,
         decreases
             [[L: loop/termination]]
             n - i,
@@ -411,14 +403,11 @@ pub open spec fn cat_data0(q: Seq<DataWithoutzooms>, n: int) -> Seq<u8>
             if i < n {
                 assert(q.subrange(i, n)[0] == q[i]);
                 assert(q.subrange(i, n).drop_first() =~= q.subrange(i + 1, n));
+                zm1 = zooms_map@;
+                zs = q[i].3@;
+                mx0 = max_uncompressed_buf_size as int;
+                assert(msg_pre(q[i], dom));
             }
-        }
-//@at /data\.switch\(file\);/ before
-        proof {
-            zm1 = zooms_map@;
-            zs = q[i].3@;
-            mx0 = max_uncompressed_buf_size as int;
-            assert(msg_pre(q[i], dom));
         }
 //@loop 2
             invariant
